@@ -1,6 +1,7 @@
 (* entry points bound to the generated constants *)
-From Verif Require Import Base.Sx Model.Batcher Model.BatcherGlue Gen.BatcherGen Model.C09Route.
-Definition c08_entry (which : Z) (case obs : sx) : verdict := c08_run batcher_atomic_push case obs.
+From Verif Require Import Base.Sx Model.Batcher Model.BatcherGlue Model.BatcherAge Gen.BatcherGen Model.C09Route.
+(* c08_run_t = the untimed verdict of c08_run + the clocked staleness clause (Model/BatcherAge.v) *)
+Definition c08_entry (which : Z) (case obs : sx) : verdict := c08_run_t batcher_atomic_push case obs.
 (* C09: which = 0 batcher traces, 1 dead-queue wiring (both judged by the trace monitors of BatcherGlue), 2 the real output
    plugins behind a Router against scripted far ends (Model/C09Route.v) *)
 Definition c09_entry (which : Z) (case obs : sx) : verdict :=
